@@ -48,6 +48,14 @@ bool xz_build_unsized(const Bytes &in, const std::vector<size_t> &block_sizes, l
 void gen_artefact_params(Rng &rng, Plan &plan, bool thorough, size_t max_len);
 bool build_artefact(const Plan &plan, Bytes &file, Bytes &plain, XzInfo &info, std::string &err);
 
+// One .lz member (version 0 or 1) with an LZMA1 payload from the tree's raw
+// encoder (lc=3 lp=0 pb=2, end marker). dict_code is the header byte.
+bool lz_build_member(const Bytes &in, int version, uint8_t dict_code, Bytes &out, std::string &err);
+// .lzma (LZMA_Alone) file from the tree's alone encoder
+bool lzma_build(const Bytes &in, const lzma_options_lzma *opt, Bytes &out, std::string &err);
+// read a file of /repo/tests/files (VERIF_REPO overrides /repo)
+bool read_test_file(const std::string &name, Bytes &out);
+
 // ---- storage faults -------------------------------------------------
 // op "sfault" kind=(0 flip,1 overwrite,2 insert,3 delete,4 truncate,5 dup)
 // pos= len= val=   (pos is taken modulo the current size)
